@@ -35,7 +35,14 @@ RULE = ("history = one cell space (OrthogonalMooreGrid / OrthogonalVonNeumannGri
         "oracle stops judging a history at its first direct call). SCALE stream (5 cases per quick run, 60 thorough, 40 in the broken-tie enumerator): one "
         "cell filled (op Fill, run-length encoded agent kinds) with 100..513 agents crossing 128/129/256/257/512, then moves out, removals, un-placing, "
         "re-adds, arrivals, stepwise emptying, refills, on small spaces with the model and on 40x40 / 33x31 / 20x20 grids and a 300-node network without it; "
-        "all_cells[cell] and the cached neighbourhood agents of every (sampled) cell are compared as well. The whole state view is observed after every operation; at the end the "
+        "all_cells[cell] and the cached neighbourhood agents of every (sampled) cell are compared as well. USER-CODE stream (40 histories per quick run, "
+        "1500 thorough, 400 in the broken-tie enumerator; implementation + oracle only, user code is not modelled): CellAgent / FixedAgent / "
+        "Grid2DMovingAgent subclasses overriding move_to (declining None and full cells), move_to / move_relative / remove with super() and an extra "
+        "constructor argument, the cell property, remove() and cell hooks that re-enter the space (queries, moving another agent), a docstring-only "
+        "subclass; Cell subclasses that are falsy / sized / iterable by their occupants, with add_agent / remove_agent hooks and class-level defaults, "
+        "that veto some agents, with value equality; removal through agent.remove(), model.remove_all_agents(), AgentSet.do('remove') and "
+        "do(callable); the oracle is the statement on the implementation's own state after every operation (removed agents listed nowhere, mirror, "
+        "capacity, all emptiness views, space.agents) plus: a Cell subclass gets the connections of the stock Cell. The whole state view is observed after every operation; at the end the "
         "constructor arguments (graph, points, dimensions) must be unchanged. "
         "non-trivial = at least 3 operations of which one was rejected or a removal happened; distinct = by SHA1 of the history")
 TRUSTED_BASE = [
@@ -457,8 +464,62 @@ def _scale_case(rng, big=False):
     return case
 
 
+# ------------------------------------------------------------------ USER-CODE stream (wave 10): implementation + oracle only
+USER_AGENTS = ["plain_cell", "plain_fixed", "plain_grid2d", "picky", "logging", "propcell", "reentrant", "fixedsub", "docsub"]
+USER_CELLS = ["stock", "falsy_when_empty", "hooked", "declining", "eqcell"]
+
+
+def _user_case(rng):
+    """user subclasses as the library intends them (overridden move_to / move_relative / remove / cell property calling super,
+    declining, extending; Cell subclasses with hooks, class-level defaults, falsy / iterable instances, value equality), callbacks
+    that re-enter the space, and the three removal entry points.  No model run: user code is not modelled; the oracle is the
+    statement over the implementation's own state after every operation."""
+    sp = _rand_space(rng)
+    if isinstance(sp.get("capacity"), (str, float)) or sp.get("capacity") == 0:
+        sp["capacity"] = rng.choice([None, 1, 2])
+    if sp["type"] == "voronoi":
+        sp["caps"] = [rng.choice([None, 1, 2, 3]) for _ in sp["points"]]
+    ncells = _n_cells(sp)
+    n = rng.randint(2, 9)
+    kinds = [rng.choice(USER_AGENTS) for _ in range(n)]
+    if rng.random() < 0.6:
+        kinds[0] = rng.choice(["picky", "reentrant", "propcell", "logging"])
+    ops = []
+    for a in range(1, n + 1):
+        if rng.random() < 0.85:
+            ops.append([rng.choice(["set", "set", "move_to", "place_rand"]), a, rng.randrange(ncells)])
+    for _ in range(rng.randint(4, 24)):
+        a = rng.randint(1, n)
+        r = rng.random()
+        if r < 0.25:
+            ops.append(["set", a, rng.choice([rng.randrange(ncells), rng.randrange(ncells), None])])
+        elif r < 0.40:
+            ops.append(["move_to", a, rng.randrange(ncells)])
+        elif r < 0.55:
+            ops.append(["move_rel", a, _rand_dir(rng, sp, ncells)])
+        elif r < 0.63:
+            ops.append(["move2d", a, _rand_name(rng), rng.choice([1, 1, 2, 3])])
+        elif r < 0.78:
+            ops.append(["remove", a])
+        elif r < 0.83:
+            ops.append([rng.choice(["remove_all", "do_remove", "do_remove_callable"])])
+        elif r < 0.90:
+            ops.append(["place_rand", a, rng.randrange(ncells)])
+        elif r < 0.95:
+            ops.append(["new", rng.choice(USER_AGENTS)])
+            n += 1
+        else:
+            ops.append(["rand_empty", rng.random() < 0.5])
+    if rng.random() < 0.5:
+        ops.append([rng.choice(["remove_all", "do_remove", "do_remove_callable"])])
+    return {"space": sp, "agents": kinds, "seed": rng.randrange(1000), "ops": ops, "nomodel": True,
+            "user": {"cell": rng.choice(USER_CELLS)}}
+
+
 def gen_cases(rng, tier):
     cases = _corner_cases()
+    for _ in range(40 if tier == "quick" else 1500):
+        cases.append(_user_case(rng))
     for k in range(5 if tier == "quick" else 60):
         cases.append(_scale_case(rng, big=(k % 5 == 4)))
     n = 1000 if tier == "quick" else 20000
@@ -483,6 +544,9 @@ def enumerate_cases(tier, broken=False):
     if broken:
         import random as _r
 
+        urng = _r.Random(20261)
+        for _ in range(400):
+            yield _user_case(urng)
         srng = _r.Random(20260)
         for k in range(40):
             yield _scale_case(srng, big=(k % 4 == 3))
@@ -655,7 +719,266 @@ SITE = {"set": "cell-setter", "move_to": "cell-setter", "move_rel": "move_relati
         "rand_empty": "select_random_empty_cell", "place_rand": "place-random-empty"}
 
 
+def _run_user(case):
+    """driver + oracle of the USER-CODE stream"""
+    import random as _random
+    import warnings
+
+    import mesa
+    from mesa.discrete_space import Cell, CellAgent, FixedAgent, Grid2DMovingAgent
+
+    sp = case["space"]
+    seed = case.get("seed", 0)
+    log = []
+
+    # ---- Cell subclasses
+    class FalsyWhenEmpty(Cell):
+        """truth value / length / iteration follow the occupants"""
+        def __bool__(self):
+            return not self.is_empty
+
+        def __len__(self):
+            return len(self._agents)
+
+        def __iter__(self):
+            return iter(self.agents)
+
+    class Hooked(Cell):
+        terrain = "plain"                       # class-level default
+
+        def __init__(self, *a, **k):
+            super().__init__(*a, **k)
+            self.visits = 0                     # extra attribute
+
+        def add_agent(self, agent):
+            super().add_agent(agent)
+            self.visits += 1
+            hook = getattr(agent, "on_enter", None)
+            if hook:
+                hook(self)
+
+        def remove_agent(self, agent):
+            super().remove_agent(agent)
+            hook = getattr(agent, "on_leave", None)
+            if hook:
+                hook(self)
+
+    class Declining(Cell):
+        """refuses some agents BEFORE anything happens (a legitimate veto)"""
+        def add_agent(self, agent):
+            if getattr(agent, "unique_id", 0) % 4 == 0:
+                raise RuntimeError("this cell does not take that agent")
+            super().add_agent(agent)
+
+    class EqCell(Cell):
+        """value equality by coordinate"""
+        def __eq__(self, other):
+            return isinstance(other, Cell) and self.coordinate == other.coordinate
+
+        def __hash__(self):
+            return hash(("cell", str(self.coordinate)))
+
+    cell_klass = {"stock": None, "falsy_when_empty": FalsyWhenEmpty, "hooked": Hooked, "declining": Declining, "eqcell": EqCell}[case["user"]["cell"]]
+    model = mesa.Model(seed=seed)
+    rnd = _random.Random(seed)
+    space = _build_space(sp, rnd, cell_klass)
+    is_grid = sp["type"] in ("moore", "vonneumann", "hex")
+    cells = list(space._cells.values())
+    ncells = len(cells)
+    cidx = {id(c): i for i, c in enumerate(cells)}
+    layer = space._mesa_property_layers["empty"] if is_grid else None
+    failures = []
+    if cell_klass is not None:
+        # a Cell subclass (falsy, iterable, hooked ...) must get the connections the stock Cell gets: moves depend on them
+        twin = _build_space(sp, _random.Random(seed), None)
+        tcells = list(twin._cells.values())
+        tidx = {id(c): i for i, c in enumerate(tcells)}
+        for j, (c, t) in enumerate(zip(cells, tcells)):
+            mine = {k: cidx.get(id(v), -9) for k, v in c.connections.items()}
+            stock = {k: tidx.get(id(v), -9) for k, v in t.connections.items()}
+            if mine != stock:
+                failures.append({"key": "C06/user-code/connections-differ-from-stock-cells", "op": -1,
+                                 "what": f"cell {j} of a space built with cell_klass={cell_klass.__name__} has connections {mine}, with the stock Cell {stock}"})
+                break
+
+    # ---- agent subclasses
+    class Picky(CellAgent):
+        """only moves into a cell that has room, otherwise stays put (declines None and full cells)"""
+        def move_to(self, cell):
+            if cell is None or cell.is_full:
+                return
+            super().move_to(cell)
+
+    class Logging(Grid2DMovingAgent):
+        def __init__(self, model, tag="x"):
+            super().__init__(model)
+            self.tag = tag                      # extra constructor argument
+
+        def move_to(self, cell):
+            log.append(("move_to", self.unique_id))
+            super().move_to(cell)
+
+        def move_relative(self, direction):
+            log.append(("move_relative", self.unique_id))
+            return super().move_relative(direction)
+
+        def remove(self):
+            log.append(("remove", self.unique_id))
+            super().remove()
+
+    class PropCell(CellAgent):
+        """overrides the cell property, delegating to the inherited one"""
+        sets = 0
+
+        @property
+        def cell(self):
+            return CellAgent.cell.fget(self)
+
+        @cell.setter
+        def cell(self, value):
+            type(self).sets += 1
+            CellAgent.cell.fset(self, value)
+
+    class Reentrant(CellAgent):
+        """its hooks and its remove() call back into the public API"""
+        buddy = None
+
+        def on_enter(self, cell):
+            _ = (cell.is_empty, cell.is_full, len(list(space.empties)), len(list(space.agents)))
+            b = self.buddy
+            if b is not None and b is not self and b.cell is not None and rnd.random() < 0.5:
+                free = list(space.empties)
+                if free:
+                    try:
+                        b.cell = rnd.choice(free)
+                    except Exception:  # noqa: BLE001   the callback handles its own rejections (a FixedAgent, a declining cell)
+                        pass
+
+        def on_leave(self, cell):
+            _ = len(list(space.all_cells.agents))
+
+        def remove(self):
+            _ = [c.is_empty for c in space.all_cells]
+            b = self.buddy
+            if b is not None and b is not self and b.cell is not None and self.cell is not None and not self.cell.is_full:
+                try:
+                    b.move_to(self.cell)
+                except Exception:  # noqa: BLE001
+                    pass
+            super().remove()
+
+    class FixedSub(FixedAgent):
+        def remove(self):
+            log.append(("fixed-remove", self.unique_id))
+            super().remove()
+
+    class DocSub(CellAgent):
+        """a docstring-only subclass"""
+
+    klass = {"plain_cell": CellAgent, "plain_fixed": FixedAgent, "plain_grid2d": Grid2DMovingAgent, "picky": Picky, "logging": Logging,
+             "propcell": PropCell, "reentrant": Reentrant, "fixedsub": FixedSub, "docsub": DocSub}
+    agents = []
+
+    def make(kind):
+        a = klass[kind](model, "t") if kind == "logging" else klass[kind](model)
+        if isinstance(a, Reentrant):
+            # the agent its callbacks move: never another re-entrant one (no agent is moved while it is itself in transit)
+            calm = [x for x in agents if not isinstance(x, Reentrant)]
+            if calm:
+                a.buddy = calm[(len(agents) * 7 + seed) % len(calm)]
+        agents.append(a)
+
+    for k in case["agents"]:
+        make(k)
+    obs = []
+
+    def check(i, op):
+        """the statement of C06 on the implementation's own state (no shadow: user code decides what an operation does)"""
+        lists = [list(c.agents) for c in cells]
+        where = {}
+        for j, l in enumerate(lists):
+            for x in l:
+                where.setdefault(id(x), []).append(j)
+        for n_, ag in enumerate(agents, 1):
+            js = where.get(id(ag), [])
+            inmodel = ag in model.agents
+            c = ag.cell
+            ci = cidx.get(id(c)) if c is not None else None
+            if not inmodel and js:
+                return failures.append({"key": "C06/user-code/removed-agent-still-listed", "op": i,
+                                        "what": f"after {op}: agent {n_} ({case['agents'][n_ - 1] if n_ <= len(case['agents']) else 'new'}) has left the model but cell(s) {js} still list it"})
+            if inmodel or not isinstance(ag, FixedAgent):
+                want = [] if ci is None else [ci]
+                if js != want:
+                    return failures.append({"key": "C06/user-code/mirror", "op": i,
+                                            "what": f"after {op}: agent {n_} reports cell {ci} but is listed in {js}"})
+        for j, c in enumerate(cells):
+            l = lists[j]
+            if c.capacity and len(l) > c.capacity:
+                return failures.append({"key": "C06/user-code/capacity-exceeded", "op": i, "what": f"after {op}: cell {j} of capacity {c.capacity} holds {len(l)} agents"})
+            if bool(c.is_empty) != (not l) or (c.capacity is not None and c.capacity >= 1 and bool(c.is_full) != (len(l) == c.capacity)):
+                return failures.append({"key": "C06/user-code/is_empty-is_full", "op": i, "what": f"after {op}: cell {j} lists {len(l)} agents, is_empty={c.is_empty}, is_full={c.is_full}"})
+            if is_grid and bool(layer.data[c.coordinate]) != (not l):
+                return failures.append({"key": "C06/user-code/empty-layer", "op": i, "what": f"after {op}: cell {j} lists {len(l)} agents, layer says {bool(layer.data[c.coordinate])}"})
+        emp = sorted(cidx.get(id(c), -9) for c in space.empties)
+        if emp != [j for j in range(ncells) if not lists[j]]:
+            return failures.append({"key": "C06/user-code/empties", "op": i, "what": f"after {op}: empties={emp}, lists empty at {[j for j in range(ncells) if not lists[j]]}"})
+        listed = sorted(id(x) for l in lists for x in l)
+        if sorted(id(x) for x in space.agents) != listed or sorted(id(x) for x in space.all_cells.agents) != listed:
+            return failures.append({"key": "C06/user-code/agents", "op": i, "what": f"after {op}: space.agents / all_cells.agents differ from the cells' lists"})
+        return None
+
+    for i, op in enumerate(case["ops"]):
+        kind = op[0]
+        raised = None
+        try:
+            with warnings.catch_warnings():
+                warnings.simplefilter("ignore")
+                a = op[1] if len(op) > 1 and isinstance(op[1], int) else None
+                ag = agents[a - 1] if a is not None and 1 <= a <= len(agents) else None
+                if kind == "new":
+                    if op[1] in klass and len(agents) < 14:
+                        make(op[1])
+                elif kind == "remove_all":
+                    model.remove_all_agents()
+                elif kind == "do_remove":
+                    model.agents.do("remove")
+                elif kind == "do_remove_callable":
+                    model.agents.do(lambda x: x.remove())
+                elif kind == "rand_empty":
+                    if is_grid:
+                        space._try_random = bool(op[1]) and any(c.is_empty for c in cells)
+                    space.select_random_empty_cell()
+                elif ag is None or (ag not in model.agents and kind != "remove"):
+                    pass        # agents that have left the model are not placed again in this stream
+                elif kind == "set":
+                    ag.cell = cells[op[2]] if op[2] is not None and 0 <= op[2] < ncells else None
+                elif kind == "move_to" and hasattr(ag, "move_to"):
+                    ag.move_to(cells[op[2] % ncells])
+                elif kind == "move_rel" and hasattr(ag, "move_relative"):
+                    ag.move_relative(_key_of(sp, [int(x) for x in op[2]]))
+                elif kind == "move2d" and hasattr(ag, "move"):
+                    ag.move(str(op[2]), int(op[3]))
+                elif kind == "remove":
+                    ag.remove()
+                elif kind == "place_rand":
+                    if is_grid:
+                        space._try_random = False
+                    ag.cell = space.select_random_empty_cell()
+        except Exception as e:  # noqa: BLE001   vetoes, rejections, user errors: the history carries on
+            raised = e
+        obs.append([-1, 0] if raised is not None else [0])
+        if not failures:
+            try:
+                check(i, op)
+            except Exception as e:  # noqa: BLE001
+                failures.append({"key": "C06/user-code/view-unexpected-exception", "op": i, "what": f"after {op}: observing raised {type(e).__name__}: {e}"})
+    return {"obs": obs, "failures": failures, "model": False}
+
+
 def run_impl(case):
+    if "user" in case:
+        return _run_user(case)
     import math
 
     import mesa
@@ -1473,6 +1796,10 @@ def _api(op):
 
 
 def coq_case(case):
+    if "user" in case:
+        # user-code histories are not run on the model: an empty history over a one-cell space (only printed for replay files)
+        return ("{| x_base := {| c_ncells := 1; c_caps := [None]; c_conn := []; c_grid := false; c_kinds := []; c_ops := [] |}; "
+                "x_born0 := 0; x_frac := [false]; x_ops := [] |}")
     m = case.get("_ops_for_model")
     if m:
         ops_src, st = m["ops"], m["static"]
@@ -1548,6 +1875,8 @@ def coq_case(case):
 
 
 def op_kinds(case):
+    if "user" in case:
+        return [f"user[{case['user']['cell']}]:{op[0]}" for op in case["ops"]]
     out = []
     for op in case["ops"]:
         k = op[0]
